@@ -671,6 +671,12 @@ fn grid_units(quick: bool) -> Vec<UnitDesc> {
             }
         }
     }
+    // the largest seed: seed + epoch + item index must not leave the seed type
+    for strat in 0..3 {
+        for pre in [1usize, 3] {
+            u.push(UnitDesc { lens: vec![2, 3], bad: vec![], strat, seed: u64::MAX, epoch: 1, pre });
+        }
+    }
     // file sets with unreadable lines (a header line, a truncated record ...) at the start, in the
     // middle, at a file boundary and at the end
     let bad_sets: Vec<(Vec<usize>, Vec<(usize, usize)>)> = if quick {
